@@ -305,6 +305,44 @@ def run(tier, seed, replay):
                     d2 = maxdiff(rC.states, rB.runs_states[0])
                     if d2 > 1e-10:
                         v(f"call-args:replay:{which}:{method}", f"run_from_experiment(args=...) on a solver built with other arguments does not reproduce the trajectory of a solver built with these arguments ({cfg}): {d2:.2e}", cfg)
+    # ------------------------------------------------------------------ the Wiener process handed to a feedback coefficient is the running sum of the
+    # increments of the trajectory (0 at the start), however often and in whatever order the coefficient asks for it
+    for which, methods in (("sme", sme_methods), ("sse", sse_methods)):
+        for method in methods:
+            seen = {}
+
+            def fb(t, W, seen=seen):
+                k = int(round(t / 0.1))
+                if abs(t - 0.1 * k) < 1e-9:
+                    first = float(W(t)[0])
+                    again = float(W(t)[0])
+                    seen.setdefault(k, []).extend([first, again])
+                return 1.0
+            cfg = {"eq": which, "method": method}
+            try:
+                with warnings.catch_warnings():
+                    warnings.simplefilter("ignore")
+                    with core.time_limit(240):
+                        cls = qutip.SMESolver if which == "sme" else qutip.SSESolver
+                        Hfb = qutip.QobjEvo([0.5 * sz, [0.3 * sx, fb]], args={"W": cls.WienerFeedback()})
+                        o = {"method": method, "dt": 0.1, "store_states": True, "progress_bar": "", "keep_runs_results": True}
+                        sf = cls(Hfb, sc_ops=[0.6 * sm], heterodyne=False, options=o)
+                        rf = sf.run(rho0 if which == "sme" else psi0, tl, ntraj=1, seeds=int(rng.integers(1 << 30)))
+            except core.CaseTimeout:
+                raise
+            except Exception as e:
+                v(f"feedback-raises:{which}:{method}", f"Wiener feedback raises for {cfg}: {type(e).__name__}: {e}"[:240], cfg)
+                continue
+            rep.evaluations += 1
+            rep.count("wiener-feedback")
+            Wrep = np.asarray(rf.wiener_process[0]).reshape(-1)
+            Wsum = np.concatenate([[0.0], np.cumsum(np.asarray(rf.dW[0]).reshape(-1))])
+            for k in sorted(seen):
+                if k < len(Wsum):
+                    vals = np.array(seen[k])
+                    if np.abs(vals - Wsum[k]).max() > 1e-12 or abs(Wrep[k] - Wsum[k]) > 1e-12:
+                        v(f"feedback-wiener:{which}:{method}", f"the Wiener process seen by a feedback coefficient at t={0.1 * k:.1f} is {sorted(set(np.round(vals, 6).tolist()))}, the sum of the reported increments up to that time is {Wsum[k]:.6f} ({cfg})", cfg)
+                        break
     # ------------------------------------------------------------------ unevenly spaced output times: the reported records stay consistent
     uneven = np.array([0.0, 0.1, 0.15, 0.4, 0.5, 0.8])
     for which, methods in (("sme", sme_methods), ("sse", sse_methods)):
